@@ -289,9 +289,12 @@ def verify_function(mod, fname, contract, params, unroll=0, prop_prefix="", only
         else:
             obs.append(core.Obligation("%s.%s" % (name0, nm), core.UNKNOWN, "z3-5.1(py)", dt, detail="ensures %s: %s" % (nm, s.reason_unknown())))
     # the function must be able to return (no vacuous proof through an always-trapping body)
-    r, s, dt = _solve(pre + [rc], Z3_MS)
-    if r != z3.sat:
-        obs.append(core.Obligation(name0 + ".returns-cover", core.ERROR, "z3-5.1(py)", dt, detail="no input reaches a return: %s" % r))
+    # (a vacuity guard, not an obligation: `unknown` under load is tolerated, only a definite `unsat` is an error)
+    r, s, dt = _solve(pre + [rc, z3.ULE(k.n, enc.bv(64, 64)), z3.ULE(k.m, enc.bv(64, 64))], min(Z3_MS, 20000))
+    if r == z3.unsat:
+        r, s, dt = _solve(pre + [rc], Z3_MS)
+        if r == z3.unsat:
+            obs.append(core.Obligation(name0 + ".returns-cover", core.ERROR, "z3-5.1(py)", dt, detail="no input reaches a return (vacuous contract)"))
     return obs
 
 
@@ -350,8 +353,17 @@ def run_tu(job):
 def run_jobs(run, jobs, nproc=16):
     import multiprocessing
     ctx = multiprocessing.get_context("fork")
+    budget = int(os.environ.get("VERIF_E2_WALL_S", "2400"))
     with ctx.Pool(min(nproc, max(1, len(jobs)))) as pool:
-        results = pool.map(run_tu, jobs, chunksize=1)
+        pending = [(j["tag"], pool.apply_async(run_tu, (j,))) for j in jobs]
+        results = []
+        t_end = time.time() + budget
+        for tag, ar in pending:
+            try:
+                results.append(ar.get(timeout=max(1.0, t_end - time.time())))
+            except Exception as ex:   # multiprocessing.TimeoutError or a worker crash
+                results.append((tag, "checker-error", "TU did not finish within the %d s wall budget (%s)" % (budget, type(ex).__name__), {}))
+        pool.terminate()
     stats = {"tus": 0, "ir_lines": 0, "compile_s": 0.0, "wrappers": 0}
     for tag, status, payload, st in results:
         if status != "ok":
